@@ -16,6 +16,7 @@ let () =
   register "zp_of" (fun a -> pure (ti (pof opsZ (zp (arg a 0)) (int_ (arg a 1)))));
   register "zp_diff" (fun a -> pure (tints (pdiff opsZ (zp (arg a 0)))));
   register "zp_deg" (fun a -> pure (ti (pdeg (zp (arg a 0)))));
+  register "zp_coef_at" (fun a -> pure (ti (coef_at opsZ (zp (arg a 0)) (nat_ (arg a 1)))));
   register "zp_eq" (fun a -> pure (tbool (zp (arg a 0) = zp (arg a 1))));
   register "zp_pseudo_div_rem" (fun a -> pure (pair tints tints (pseudo_div_rem (zp (arg a 0)) (zp (arg a 1)))));
   register "zp_div_rem" (fun a -> out (pair tints tints) (div_rem_bigint (zp (arg a 0)) (zp (arg a 1))));
@@ -28,4 +29,13 @@ let () =
   register "qp_mul" (fun a -> pure (trats (pmul opsQc (qp (arg a 0)) (qp (arg a 1)))));
   register "qp_of" (fun a -> pure (tr (pof opsQc (qp (arg a 0)) (rat_ (arg a 1)))));
   register "qp_div_rem" (fun a -> pure (pair trats trats (div_rem_q (qp (arg a 0)) (qp (arg a 1)))))
+let () =
+  (* by-value operator impls of the Rust code: same mathematical operations *)
+  register "zp_add_owned" (fun a -> pure (tints (padd opsZ (zp (arg a 0)) (zp (arg a 1)))));
+  register "zp_sub_owned" (fun a -> pure (tints (psub opsZ (zp (arg a 0)) (zp (arg a 1)))));
+  register "zp_neg_owned" (fun a -> pure (tints (pneg opsZ (zp (arg a 0)))));
+  register "zp_mul_owned" (fun a -> pure (tints (pmul opsZ (zp (arg a 0)) (zp (arg a 1)))));
+  register "qp_add_owned" (fun a -> pure (trats (padd opsQc (qp (arg a 0)) (qp (arg a 1)))));
+  register "qp_sub_owned" (fun a -> pure (trats (psub opsQc (qp (arg a 0)) (qp (arg a 1)))));
+  register "qp_mul_owned" (fun a -> pure (trats (pmul opsQc (qp (arg a 0)) (qp (arg a 1)))))
 let init () = ()
